@@ -1,12 +1,25 @@
 reg("C07", "Db stays a consistent table under edit histories",
     parts=[dict(harness="c07_dbedit", cases=dict(quick=1500, thorough=40000), timeout_case=20)],
-    rule="case = initial construction (Db::createFromSamples | empty Db + first addColumns | DbGrid::create, with duplicate "
-         "names / locator names) followed by a random edit history (5-60 steps, thorough up to 400) over the public editing "
-         "alphabet (operation names are listed as reach probes h.op.<name>); after every step the structural invariants "
-         "are read through public getters and the whole table is compared with a shadow table keyed by UID; "
-         "distinct = distinct (construction kind, options, length bucket, set of operation families) signatures",
+    rule="case = initial construction (Db::createFromSamples | Db::create() + first addColumns | empty Db::create() | "
+         "DbGrid::create, with duplicate names and repeated locator names) followed by a random edit history (5-60 steps, "
+         "thorough up to 400) drawn step by step for the state reached, over the public editing alphabet of Db/DbGrid "
+         "(every operation name used is listed as reach probe h.op.<name>); after EVERY step (a) the consistency rules of "
+         "harness/common/c07_db_invariants.hpp are read through public getters (oracles inv.<rule>) and (b) the whole table "
+         "(live UIDs, column order, every cell, names, roles, counts, return values) is compared with a shadow table keyed "
+         "by UID (oracles t.<what>); key = C07:<operation>:<rule>, one fixed key per known-defect input class; the first "
+         "witness of a key is delta-debugged to a short history; distinct = distinct (construction kind and options, "
+         "length bucket, set of operation families) signatures",
     level="exploration",
-    require=dict(distinct=20),
-    assumptions=["a selection column only ever holds 0/1 values written by the harness",
-                 "locator ranks requested are 'next' or an existing rank; unique role types (W, C, SEL) only at rank 0",
-                 "names are taken from a pool without regular-expression metacharacters (library-made suffixes .N / -N excepted)"])
+    require=dict(distinct=40,
+                 oracles=dict(quick={"inv.uid-col": 12000, "inv.names-unique": 12000, "inv.locator-two-roles": 12000,
+                                     "t.cells": 12000, "t.roles": 12000, "t.columns": 12000, "t.return": 3000},
+                              thorough={"inv.uid-col": 800000, "inv.names-unique": 800000, "inv.locator-two-roles": 800000,
+                                        "t.cells": 800000, "t.roles": 800000, "t.columns": 800000, "t.return": 200000})),
+    assumptions=["a column carrying the SEL role only receives 0/1 values from the harness, and SEL is only given to 0/1 columns "
+                 "(Db::addSelection documents a selection as 0/1; the meaning of other values differs between getters)",
+                 "a requested locator rank is 'next' (-1 or the current count) or an existing rank; 'unique' role types "
+                 "(W, C, SEL) are only requested for one column at rank 0",
+                 "names come from a pool of plain words; suffixes '.N' / '-N' are only produced by the library itself",
+                 "sample count stays >= 1 once the table has a sample (deleteSample is not used on the last sample)",
+                 "masked samples after setColumnByColIdx/setColumnsByColIdx/setCoordinates(useSel=true) and cell values after "
+                 "resetDims are undocumented and left undetermined (re-read from the Db)"])
